@@ -32,17 +32,18 @@ CHECKS = {
             "E1+E2", "DESIGN.md#c14"),
     "C10": ("model_checking",
             "explicit-state BFS over delivery-controlled event histories replayed on a real Connection pair, canonical-state de-duplication, invariant probes on throw-away rebuilds of every state",
-            "All histories over {send k again (alone / in tuples, async or sync), drop a proxy, pass a proxy back, deliver one frame c->s, deliver one frame s->c, close} "
+            "All histories over {send k again (alone / in tuples, async or sync), drop a proxy, pass a proxy back, the peer ASKS for an object asynchronously (reference travels in a reply) and collects the result or discards it unread, deliver one frame c->s, deliver one frame s->c, close} "
             "for 1-2 objects with a bounded number of sends are enumerated to closure (the state space is finite); in every reachable state every live proxy is used, "
             "everything is dropped and drained to quiescence, and the connection is closed.",
             "frames are processed FIFO per direction; sequence numbers abstracted from the state key; finalizers run at the reference drop (gc disabled); class cache warmed for user classes",
             "E1+E3", "DESIGN.md#c10"),
     "C15": ("model_checking",
             "explicit-state BFS in virtual time over event histories replayed on a real Connection with a scripted reference-codec peer; every observation compared with a reference state machine's set of acceptable outcomes",
-            "All histories up to the depth bound over {schedule the reply (value/exception) after d, clock tick, add_callback, ready/error/expired, wait, value, serve one frame, "
+            "All histories over {schedule the reply (value/exception) after d, clock tick, add_callback (flat and re-entrant), ready/error/expired, wait, value, serve one frame, "
             "unrelated request with a slow handler, stray reply, set_expiry} for every creation mode (async_request, timed, sync_request) and timeout in {None, unset, -1, 0, 1, 2}; "
+            "the search reaches closure (no frontier left) below the depth bound of 9 (quick) / 11 (thorough) events for the bounded alphabet (1 / 2 unrelated requests and expiry changes); "
             "oracle: final outcome, exact virtual time of every return/raise (later only while the waiter runs a handler), callbacks exactly once in order, late reply discarded.",
-            "virtual time (computation is instantaneous); ties and 'arrived before expiry but first looked at after it' accept both outcomes; negative timeouts: finality and callbacks only",
+            "virtual time (computation is instantaneous); ties and 'arrived before expiry but first looked at after it' accept both outcomes; negative timeouts: finality and callbacks only; the expiry is changed only while the result is pending; two threads sharing the connection are C13/C14's subject",
             "E1+E3", "DESIGN.md#c15"),
     "C04": ("exploration",
             "exhaustive enumeration of a value grammar (encode side) and of all short byte strings / tag-class strings / seed mutations (decode side) against the real brine module, with an audit-hook monitor",
@@ -58,7 +59,7 @@ CHECKS = {
             "E5", "DESIGN.md#c19"),
     "C08": ("model_checking",
             "exhaustive enumeration of request streams (bounded length) replayed on a real client/server Connection pair with a frame ledger at the transport, plus every malformed request of a menu sent by a reference-codec raw peer",
-            "All streams of <= 3 (quick) / 4 (thorough) requests over 7 handler outcomes x {sync, async} with every placement of result collection; ledger oracle: one response per request with its own "
+            "All streams of <= 3 (quick) / 4 (thorough) requests over 9 handler outcomes (values, references, exceptions, unencodable results and exception arguments, nested callback, GeneratorExit, a custom BaseException) x {sync, async} with every placement of result collection; ledger oracle: one response per request with its own "
             "sequence number in both directions, handlers exactly once, results reach their own requester, unencodable results surface as exceptions, connection usable afterwards. "
             "Malformed requests (36 shapes x 8 sequence-number shapes, and all ordered pairs) each get exactly one exception response bearing their own sequence number.",
             "deterministic default schedule (thread interleavings are C13's subject); bounded stream length",
@@ -66,14 +67,14 @@ CHECKS = {
     "C01": ("exploration",
             "exhaustive enumeration of call-tree programs (all tree shapes x node/edge labellings up to a node bound) and of argument/result shape chains, each executed on a real Connection pair and on a single-process twin",
             "Every program with <= 4 (quick) / 5 (thorough) nodes - which peer runs each node, raise/return at each node, sync / caught / async invocation on each edge - and every "
-            "(argument shape, result shape, passing mode, chain depth 1..3) case is run through rpyc and locally; root outcome, ordered invocation log (each node exactly once), callee view and caller objects afterwards must agree.",
+            "(argument shape incl. tuple subclasses, result shape, passing mode, chain depth 1..3) case is run through rpyc and locally; root outcome, ordered invocation log (each node exactly once), callee view and caller objects afterwards must agree.",
             "deterministic default schedule; families A (control) and B (data) are exhaustive within their bounds, their product is not enumerated",
             "E1+E3", "DESIGN.md#c01"),
     "C03": ("model_checking",
             "exhaustive enumeration of the value grammar against the statement's plain-immutable predicate plus explicit-state enumeration of all send/echo/drop/forward histories up to a depth bound on real Connection pairs (1 and 2 hops)",
             "Every grammar value (incl. every subclass / container / callable / module kind and tuples mixing values and references) is sent and classified; references are echoed (must be the original), "
             "re-sent while alive (must be the same proxy) and mutated through; all histories up to depth 3 (quick) / 4 (thorough) over {send sync/async/in tuple/twice, collect, echo, drop, forward over a second hop} "
-            "for built-in-class and user-class objects are replayed with an identity oracle after every step; obtain/deliver copies are equal but independent.",
+            "for built-in-class and user-class objects are replayed with an identity oracle after every step; every ordered pair of 35 representative values on one connection in four contexts (alone, beside a reference, as a result, as a result beside a reference): the by-value/by-reference decision must not depend on history; obtain/deliver copies are equal but independent.",
             "deterministic default schedule (delivery races are C10's subject); bounded history depth; generator/memoryview left out of part V",
             "E1+E3+E5", "DESIGN.md#c03"),
     "C05": ("fault_enumeration",
@@ -122,7 +123,8 @@ CHECKS = {
     "C17": ("model_checking",
             "explicit-state BFS over client/server event histories on the real threaded, thread-pool, one-shot and forking servers running on a simulated socket layer under the controlled scheduler, with descriptor/table/hook/thread accounting after every event; schedule exploration of connect racing close",
             "All histories up to the depth bound over connect / call / graceful close / abrupt close by <= 3 clients and server.close() (twice) at any point, over TCP and unix sockets, each driven to quiescence; "
-            "after close every client sees EOFError promptly, hooks ran once, no descriptor, table entry or server thread is left; a connect racing close() is explored over schedules with <= 2 (quick) / 3 (thorough) preemptions at system-call granularity.",
+            "after close every client sees EOFError promptly, hooks ran once, no descriptor, table entry or server thread is left; a connect racing close() is explored over schedules with <= 2 (quick) / 3 (thorough) preemptions at system-call granularity; "
+            "a client leaving (close / drop / reset) racing close(), and a client leaving while a newcomer receives its recycled descriptor number (close / reset, gated or free, 1-2 pool workers), are explored over all schedules with <= 2 (quick) / 3 (thorough) deviations from the default inside the scenario's window at line granularity in the drop/close paths.",
             "SimOS models loopback sockets/poll/queue and fork/waitpid/SIGCHLD with per-process descriptor tables at the level rpyc uses them (kernel-conformance selftest against the real kernel, 45 observations); the forking server is explored on the emulated fork (children are logical threads with their own descriptor table; memory is not copied, which is sound here because a child only touches its own connection) and its close() is a recorded known finding (cannot reach the children)",
             "E1+E3+E4", "DESIGN.md#c17"),
     "C16": ("model_checking",
